@@ -421,3 +421,96 @@ func outermostLoopExits(p *Prog, fn *ssa.Function) []string {
 	}
 	return out
 }
+
+// c19ExcludeVerdict: the loop over the candidates of a key in which the subset test is made is left early only where the
+// test was found true, and when it runs to its end the exclude value is reported.
+func c19ExcludeVerdict(c *Ctx, call ssa.CallInstruction) {
+	p := c.P
+	fn := call.Parent()
+	cv, _ := call.(*ssa.Call)
+	construct := FuncName(fn) + "|exclude value reported iff no candidate contains it"
+	// innermost loop containing the test
+	var hdr *ssa.BasicBlock
+	var body map[*ssa.BasicBlock]bool
+	for _, h := range loopHeaders(fn) {
+		b := naturalLoop(h)
+		if b[call.Block()] && (body == nil || len(b) < len(body)) {
+			hdr, body = h, b
+		}
+	}
+	if hdr == nil || cv == nil {
+		c.bad(construct, call.Pos(), "the subset test is not made in a loop over the candidates")
+		return
+	}
+	// where the test is known to have succeeded
+	matched := func(b *ssa.BasicBlock) bool {
+		for ifi, outcome := range controllingConds(b) {
+			if ifi.Cond == ssa.Value(cv) && outcome {
+				return true
+			}
+		}
+		return false
+	}
+	var bad []string
+	for _, b := range fn.Blocks {
+		if !body[b] || b == hdr {
+			continue
+		}
+		for i, s := range b.Succs {
+			if body[s] {
+				continue
+			}
+			if _, isPanic := s.Instrs[len(s.Instrs)-1].(*ssa.Panic); isPanic {
+				continue
+			}
+			if ifi, ok := b.Instrs[len(b.Instrs)-1].(*ssa.If); ok && ifi.Cond == ssa.Value(cv) && i == 0 {
+				continue // left on the true edge of the test itself
+			}
+			if matched(b) {
+				continue
+			}
+			bad = append(bad, "the loop over the candidates is left at "+p.Pos(branchPos(b))+" without a candidate having matched")
+		}
+	}
+	// the way out through the header (no candidate matched) reports
+	reported := false
+	for _, s := range hdr.Succs {
+		if body[s] {
+			continue
+		}
+		base := controllingConds(s)
+		heads := map[*ssa.BasicBlock]bool{}
+		for _, h := range loopHeaders(fn) {
+			heads[h] = true
+		}
+		for _, name := range []string{"(*RuleBase).Errorf", "(*RuleBase).Error"} {
+			for _, e := range findCalls(fn, name) {
+				eb := e.Block()
+				if eb != s && !s.Dominates(eb) {
+					continue
+				}
+				okConds := true
+				for ifi := range controllingConds(eb) {
+					if _, outer := base[ifi]; outer {
+						continue
+					}
+					if !heads[ifi.Block()] || naturalLoop(ifi.Block())[eb] {
+						okConds = false
+					}
+				}
+				if okConds {
+					reported = true
+				}
+			}
+		}
+	}
+	if !reported {
+		bad = append(bad, "no diagnostic is emitted unconditionally when the loop over the candidates ends without a match")
+	}
+	sort.Strings(bad)
+	if len(bad) == 0 {
+		c.ok(construct, call.Pos(), "every candidate is tried until one matches; without a match the value is reported")
+	} else {
+		c.bad(construct, call.Pos(), strings.Join(bad, "; ")+": whether an exclude value is reported no longer depends on whether some candidate contains it")
+	}
+}
